@@ -247,6 +247,46 @@ theorem Ext_stageNew {s0 s : SDB} (h : Ext s0 s) {c : Nat} (hc : s.cache.get c =
     intro e; subst e; rw [hc] at e1; cases e1
   exact ⟨st1, by simp only [SDB.stage, AMap.get_set, if_neg hcc]; exact e1, e2, e3, e4, e5⟩
 
+/-- a contract-level rollback through a handle on a staged storage, not below what `s0` holds of it -/
+theorem Ext_storageRollback {s0 s s' : SDB} (h : Ext s0 s) (h0 : s0.Inv) {c r : Nat}
+    (hok : ∀ st0, s0.cache.get c = some st0 → st0.buf.nextIdx ≤ r)
+    (hr : s.storageRollback c r = some s') : Ext s0 s' := by
+  simp only [SDB.storageRollback] at hr
+  split at hr
+  · rename_i st hc
+    split at hr
+    · rename_i b hb
+      simp only [Option.some.injEq] at hr
+      subst hr
+      have hst := SDB.sto_get h.inv hc
+      obtain ⟨_, be, bn, bi⟩ := Buf.rollback_some hst hb
+      refine ⟨SDB.Inv_setCache h.inv c _ bi, h.trie, h.pre, h.len, ?_⟩
+      intro c' st0 hc'
+      obtain ⟨st1, e1, e2, e3, e4, e5⟩ := h.sto c' st0 hc'
+      simp only [AMap.get_set]
+      by_cases hcc : c = c'
+      · subst hcc
+        rw [hc] at e1
+        simp only [Option.some.injEq] at e1
+        subst e1
+        have hle := hok st0 hc'
+        have hl0 := (SDB.sto_get h0 hc').len
+        refine ⟨{ st with buf := b }, by rw [if_pos rfl], e2, e3, ?_, ?_⟩
+        · show b.entries.take st0.buf.entries.length = st0.buf.entries
+          rw [be, List.take_take, Nat.min_eq_left (by omega)]
+          exact e4
+        · show st0.buf.entries.length ≤ b.nextIdx
+          omega
+      · exact ⟨st1, by rw [if_neg hcc]; exact e1, e2, e3, e4, e5⟩
+    · cases hr
+  · cases hr
+
+theorem revOK_spec {s0 : SDB} {c r : Nat} (h : revOK s0.blockSnapshot.storage c r = true) :
+    ∀ st0, s0.cache.get c = some st0 → st0.buf.nextIdx ≤ r := by
+  intro st0 hc
+  simp only [revOK, SDB.blockSnapshot, cacheSnapshot_get, hc, Option.map_some] at h
+  simpa using h
+
 theorem covers_spec {base sn : BlockSnap} (h : base.covers sn = true) :
     base.state ≤ sn.state ∧
     ∀ c r0, base.storage.get c = some r0 → ∃ r, sn.storage.get c = some r ∧ r0 ≤ r := by
@@ -390,6 +430,15 @@ theorem run_Ext {s0 : SDB} (h0 : s0.Inv) (ops : List SDB.Op) :
       split at hr
       · rename_i hc
         exact ih _ _ (Ext_stageNew h hc _ (Storage.writes_Inv _ ws Buf.Inv_empty)) hr
+      · cases hr
+    | storageRollback c r =>
+      simp only [SDB.run] at hr
+      split at hr
+      · rename_i hok
+        split at hr
+        · rename_i s1 hs1
+          exact ih _ _ (Ext_storageRollback h h0 (revOK_spec hok) hs1) hr
+        · cases hr
       · cases hr
     | rollback sn =>
       simp only [SDB.run] at hr
